@@ -95,7 +95,7 @@ fn run(ch: Chooser, ctx: &RunCtx, mut opts: BasicOpts) -> RunOut {
 }
 
 fn fam_fair(ch: Chooser, ctx: &RunCtx) -> RunOut {
-    run(ch, ctx, BasicOpts { op_kinds: vec![0, 1, 2, 3, 4], max_drop: 400, pad_rate: 150, keepalive_rate: 100, ..Default::default() })
+    run(ch, ctx, BasicOpts { op_kinds: vec![0, 1, 2, 3, 4, 9], max_drop: 400, pad_rate: 150, keepalive_rate: 100, ..Default::default() })
 }
 
 fn fam_directed(ch: Chooser, ctx: &RunCtx) -> RunOut {
@@ -103,7 +103,7 @@ fn fam_directed(ch: Chooser, ctx: &RunCtx) -> RunOut {
 }
 
 fn fam_cc(ch: Chooser, ctx: &RunCtx) -> RunOut {
-    run(ch, ctx, BasicOpts { op_kinds: vec![0, 1], harness_cc_rate: 700, size_max: 100_000, max_drop: 200, ..Default::default() })
+    run(ch, ctx, BasicOpts { op_kinds: vec![0, 1, 9], harness_cc_rate: 700, size_max: 100_000, max_drop: 200, ..Default::default() })
 }
 
 fn fam_bigcert(ch: Chooser, ctx: &RunCtx) -> RunOut {
